@@ -69,6 +69,9 @@ pub enum ExtraKind {
     FromImportUnknownName,
     /// `from "modcap.txt" import banner`: the variable is built by a set block that contains a block
     FromImportCapturedBlock,
+    /// `from "mod.txt" import cv as q, range as r`: names the module does not define although
+    /// the importer's context (`cv`) or the globals (`range`) do
+    FromImportNamesOfImporter,
     /// error shapes
     IncludeMissing,
     ImportMissing,
@@ -262,6 +265,17 @@ fn extra_stmts(kind: ExtraKind, k: usize, in_macro: bool) -> Vec<Stmt> {
             Stmt::FromImport { name: s("modcap.txt"), names: vec![("banner".into(), Some(format!("bq{k}"))), ("mc".into(), Some(format!("mc{k}")))] },
             Stmt::Emit(v(&format!("bq{k}"))),
             Stmt::Emit(call0(v(&format!("mc{k}")))),
+        ],
+        ExtraKind::FromImportNamesOfImporter => vec![
+            Stmt::FromImport {
+                name: s("mod.txt"),
+                names: vec![("cv".into(), Some(format!("cq{k}"))), ("range".into(), Some(format!("rq{k}"))), ("m2".into(), Some(format!("mq{k}")))],
+            },
+            text("<"),
+            Stmt::Emit(Expr::Test(Box::new(v(&format!("cq{k}"))), "defined".into(), vec![], false)),
+            Stmt::Emit(Expr::Test(Box::new(v(&format!("rq{k}"))), "defined".into(), vec![], false)),
+            Stmt::Emit(call0(v(&format!("mq{k}")))),
+            text(">"),
         ],
         ExtraKind::IncludeMissing => vec![Stmt::Include { name: s("missing1.txt"), ignore_missing: false }],
         ExtraKind::ImportMissing => vec![Stmt::Import { name: s("missing1.txt"), alias: h }],
@@ -562,7 +576,7 @@ fn labels_for(case: &ChainCase, v: &mut Verdict) {
     if case.levels.iter().take(n.saturating_sub(1)).any(|l| matches!(l.ext, ExtStyle::InIf | ExtStyle::Dynamic | ExtStyle::Ternary)) {
         v.labels.push("conditional_or_dynamic_extends");
     }
-    if case.levels.iter().any(|l| l.extra.map_or(false, |e| matches!(e.kind, ExtraKind::Import | ExtraKind::FromImport | ExtraKind::FromImportUnknownName | ExtraKind::FromImportCapturedBlock))) {
+    if case.levels.iter().any(|l| l.extra.map_or(false, |e| matches!(e.kind, ExtraKind::Import | ExtraKind::FromImport | ExtraKind::FromImportUnknownName | ExtraKind::FromImportCapturedBlock | ExtraKind::FromImportNamesOfImporter))) {
         v.labels.push("has_import");
     }
     if case.levels.iter().any(|l| l.extra.map_or(false, |e| e.kind == ExtraKind::FromImportUnknownName)) {
@@ -626,6 +640,7 @@ fn extra_strategy() -> BoxedStrategy<Option<Extra>> {
         3 => Just(ExtraKind::FromImport),
         1 => Just(ExtraKind::FromImportUnknownName),
         2 => Just(ExtraKind::FromImportCapturedBlock),
+        2 => Just(ExtraKind::FromImportNamesOfImporter),
     ];
     let place = prop_oneof![
         Just(Place::Top),
@@ -800,7 +815,7 @@ impl Part for Shapes {
 
 pub struct ExtrasGrid;
 
-const GRID_KINDS: [ExtraKind; 13] = [
+const GRID_KINDS: [ExtraKind; 14] = [
     ExtraKind::Include,
     ExtraKind::IncludeDynamic,
     ExtraKind::IncludeListFirstMissing,
@@ -814,6 +829,7 @@ const GRID_KINDS: [ExtraKind; 13] = [
     ExtraKind::FromImport,
     ExtraKind::FromImportUnknownName,
     ExtraKind::FromImportCapturedBlock,
+    ExtraKind::FromImportNamesOfImporter,
 ];
 
 const GRID_PLACES: [Place; 6] = [Place::Top, Place::Block, Place::LoopInBlock, Place::WithInBlock, Place::Macro, Place::TopCapture];
@@ -1215,7 +1231,115 @@ impl Part for JoinedCycles {
     }
 }
 
-crate::declare_parts!(Chains, Shapes, ExtrasGrid, ErrorShapes, JoinedCycles);
+
+// ---------------------------------------------------------------------------
+// part 5: hand-written compositions with the output the statement's rules give (derived by hand)
+
+#[derive(Clone, Debug, Serialize, Deserialize)]
+pub struct PinnedComposition {
+    pub name: String,
+    /// (template name, source); the first one is rendered
+    pub templates: Vec<(String, String)>,
+    pub expected: String,
+}
+
+pub struct PinnedCompositions;
+
+fn pinned_compositions() -> Vec<PinnedComposition> {
+    let mk = |name: &str, templates: &[(&str, &str)], expected: &str| PinnedComposition {
+        name: name.to_string(),
+        templates: templates.iter().map(|(a, b)| (a.to_string(), b.to_string())).collect(),
+        expected: expected.to_string(),
+    };
+    vec![
+        // most-derived definition, super() one level up, fall-through, discarded outside text
+        mk(
+            "three_levels",
+            &[
+                ("c", "{% extends 'b' %}x{% block a %}C({{ super() }}){% endblock %}y"),
+                ("b", "{% extends 'p' %}{% block a %}B({{ super() }}){% endblock %}{% block z %}BZ{% endblock %}"),
+                ("p", "<{% block a %}P{% endblock %}|{% block z %}PZ{% endblock %}|{% block u %}PU{% endblock %}>"),
+            ],
+            "<C(B(P))|BZ|PU>",
+        ),
+        // self.name() renders the most-derived definition wherever it is written: in a block ...
+        mk(
+            "self_call_in_block",
+            &[("c", "{% extends 'p' %}{% block t %}T{% endblock %}{% block body %}t={{ self.t() }}{% endblock %}"), ("p", "<{% block t %}PT{% endblock %}|{% block body %}{% endblock %}>")],
+            "<T|t=T>",
+        ),
+        // ... and in the top-level code of an extending template (its assignments run)
+        mk(
+            "self_call_at_top_level_of_child",
+            &[("c", "{% extends 'p' %}{% set t = self.t() %}{% block t %}T{% endblock %}{% block body %}t={{ t }}{% endblock %}"), ("p", "<{% block t %}PT{% endblock %}|{% block body %}{% endblock %}>")],
+            "<T|t=T>",
+        ),
+        mk(
+            "self_call_before_extends",
+            &[("c", "{% set t = self.t() %}{% extends 'p' %}{% block t %}T{% endblock %}{% block body %}t={{ t }}{% endblock %}"), ("p", "<{% block t %}PT{% endblock %}|{% block body %}{% endblock %}>")],
+            "<T|t=T>",
+        ),
+        // self.x() reached through super() of x still means the most-derived x
+        mk(
+            "self_call_during_super_of_same_block",
+            &[
+                ("c", "{% extends 'p' %}{% block x %}C{% if not ns.done %}{{ super() }}{% endif %}{% endblock %}"),
+                ("p", "{% set ns = namespace(done=false) %}{% block x %}P{% if not ns.done %}{% set ns.done = true %}{{ self.x() }}{% endif %}{% endblock %}"),
+            ],
+            "CPC",
+        ),
+        // include: first existing of a list, the includer's current variables
+        mk(
+            "include_list_and_variables",
+            &[("m", "{% set v = 1 %}{% for i in [1, 2] %}{% include ['nope', 'inc'] %}{% endfor %}{% set v = 2 %}{% include 'inc' %}"), ("inc", "[{{ v }}{{ i }}]")],
+            "[11][12][2]",
+        ),
+        // import exposes exactly the module's top-level macros and variables
+        mk(
+            "import_exposes_top_level_names",
+            &[
+                ("m", "{% import 'lib' as l %}{{ l.f(1) }}|{{ l.v }}|{{ l.inner is defined }}|{{ l.x is defined }}{% from 'lib' import f as g, v %}|{{ g(2) }}|{{ v }}"),
+                ("lib", "{% macro f(a) %}F{{ a }}{% endmacro %}{% set v = 'V' %}{% for q in [1] %}{% set inner = 1 %}{% endfor %}text"),
+            ],
+            "F1|V|False|False|F2|V",
+        ),
+    ]
+}
+
+impl Part for PinnedCompositions {
+    type Case = PinnedComposition;
+    const NAME: &'static str = "pinned_compositions";
+
+    fn strategy(_tier: Tier) -> BoxedStrategy<PinnedComposition> {
+        let all = pinned_compositions();
+        (0..all.len()).prop_map(move |i| all[i].clone()).boxed()
+    }
+
+    fn enumeration(_tier: Tier) -> Vec<PinnedComposition> {
+        pinned_compositions()
+    }
+
+    fn check(c: &PinnedComposition) -> Verdict {
+        let mut v = Verdict::pass(true);
+        let mut env = Environment::new();
+        env.set_fuel(Some(200_000));
+        for (n, src) in &c.templates {
+            if let Err(e) = env.add_template_owned(n.clone(), src.clone()) {
+                v.set_fail(format!("pinned:{}", c.name), format!("template {n} does not load: {e}"));
+                return v;
+            }
+        }
+        let got = env.get_template(&c.templates[0].0).unwrap().render(Value::from_pairs([("x", Value::from("ctx-x"))]));
+        match got {
+            Ok(g) if g == c.expected => {}
+            other => v.set_fail(format!("pinned:{}", c.name), format!("the rules of the statement give {:?}, the engine: {other:?}
+templates: {:?}", c.expected, c.templates)),
+        }
+        v
+    }
+}
+
+crate::declare_parts!(Chains, Shapes, ExtrasGrid, ErrorShapes, JoinedCycles, PinnedCompositions);
 
 pub fn run(ctx: &mut Ctx) {
     ctx.rule = "inheritance chains of 1-5 templates described by a shape vector: per (template, block in {a, b, c nested in a, d nested in c}) one of absent / override / super() before / after / twice / self.b(); extends as first tag, after text, inside `if flag`, with a dynamic name or a conditional expression; top-level set and text outside blocks; per template optionally an include (literal, dynamic, list with missing first entry, ignore missing, of a template with its own chain reusing block name a) or import / from-import (aliases, unknown names) placed at top level, in a block, in a loop or with-block inside a block, inside a macro, or inside a top-level set block whose captured value every block prints (in an extending template that is a real capture within the discarded region); from-import of a variable that a set block containing a block built. Part include_import_grid enumerates every kind x place x level of chains of 1-3 templates x 4 block layouts. Oracle: the reference interpreter's multi-template semantics (most-derived definition, super() = next defining ancestor, fall-through, discarded outside text, include sees current variables, module exposes exactly top-level macros and variables). Part all_shape_vectors enumerates every shape vector over {a, c in a} x 5 choices for chains up to 4 (quick) / 5 (thorough) templates (thorough also with block b, up to 4 templates); a root with super() is left to error_shapes. Part error_shapes enumerates inheritance/include/import cycles, double extends, missing parent/include/import, super() without parent or outside a block, required block not overridden: the render must return an error of the documented kind; part cycles_under_path_join_callback spells cycles of 1-4 templates with relative names under the documented path-join callback. Non-trivial: >=3 templates with a block defined at non-adjacent levels, or an include/import inside a block, loop, with or macro. Distinct by shape vector.".into();
@@ -1229,5 +1353,6 @@ pub fn run(ctx: &mut Ctx) {
     ctx.run_enumerated::<JoinedCycles>(JoinedCycles::enumeration(t), false);
     ctx.run_enumerated::<Shapes>(Shapes::enumeration(t), true);
     ctx.run_enumerated::<ExtrasGrid>(ExtrasGrid::enumeration(t), true);
+    ctx.run_enumerated::<PinnedCompositions>(PinnedCompositions::enumeration(t), false);
     ctx.run_part::<Chains>(t.pick(40_000, 12_000_000));
 }
